@@ -675,9 +675,21 @@ func (g *G) appendOp(a, b Value, bt types.Type) Value {
 			if len(y) == 0 {
 				return x
 			}
+			inPlace := cap(x) >= len(x)+len(y)
 			out := append(x, y...)
 			for i := len(x); i < len(out); i++ {
 				out[i] = copyVal(out[i])
+			}
+			if inPlace && g.run.raceOn && g.top != nil && g.top.fn != nil && isModulePkg(fnPkgPath(g.top.fn)) {
+				// append into spare capacity writes cells that every holder of the old slice shares:
+				// treat them as watched memory (vector-clock race detection)
+				for i := len(x); i < len(out); i++ {
+					p := &out[i]
+					if g.run.watch[p] == nil {
+						g.run.watch[p] = &watchCell{name: "slice element written by append into shared spare capacity"}
+					}
+					g.run.recordAccess(g, p, true)
+				}
 			}
 			return out
 		case *Blob:
